@@ -325,6 +325,7 @@ class FakeMP(object):
             def start(self):
                 self.state = 'alive'
                 self.worker = fm.ctl.spawn('p%d' % self.pid, self._run, run_to_first_point=False)
+                if self.role == 'dp': coop.point('started')      # (a point only when the starter is a controlled thread)
             def _run(self):
                 fm.tl.proc = self
                 try:
@@ -442,6 +443,92 @@ def run_life(rp, choices, scratch):
         for k, v in env0.items():
             if os.environ.get(k) != v: os.environ[k] = v
     return obs, done, w._res_put.items
+
+
+class PLock(object):
+    """`_plock`: taking it and leaving it are scheduling points of the request thread"""
+    def __init__(self): self.held = False
+    def __enter__(self):
+        while self.held: coop.point('plock-wait')
+        self.held = True
+        coop.point('locked')
+    def __exit__(self, *a):
+        coop.point('unlock')
+        self.held = False
+
+
+def run_start(rp, choices, scratch):
+    """the REAL _request_cb in a controlled thread against the REAL _result_cb: choices 'req' (next step of the
+    request thread), 'proc' (the dispatch process and its rank process run to their end), 'watcher' (the result
+    watcher handles a queued result; blocked while the pool lock is held)"""
+    import radical.pilot.raptor.worker_default as wd
+    ctl = coop.Controller()
+    fm  = FakeMP(ctl)
+    w   = make_worker(rp, 2, 0)
+    w._plock = PLock()
+    w._result_queue = fm.Queue()
+    w._sbox = scratch
+    saved_mp, saved_os = wd.mp, wd.os
+    saved_spt = sys.modules.get('setproctitle')
+    sys.modules['setproctitle'] = types.SimpleNamespace(setproctitle=lambda *a: None)
+    env0, cwd0 = dict(os.environ), os.getcwd()
+    wd.mp, wd.os = fm, OsProxy(fm)
+    watcher_alive, finished = True, False
+    done = []
+    try:
+        task = {'uid': 'req.0', 'cores': 1, 'gpus': 0, 'task_sandbox_path': scratch + '/req.0',
+                'description': {'mode': 'task.eval', 'code': '40 + 2', 'timeout': 5, 'environment': {}}}
+        ctl.spawn('req', lambda: w._request_cb([task]), run_to_first_point=False)
+        for c in list(choices) + ['req'] * 5 + ['proc', 'watcher', 'watcher']:
+            if c == 'req':
+                if ctl.where('req') != 'done': ctl.grant('req')
+            elif c == 'proc':
+                if any(p.role == 'dp' and p.state != 'new' for p in fm.procs.values()) and not finished:
+                    for _ in range(400):
+                        live = [p for p in list(fm.procs.values()) if p.state != 'new' and ctl.where('p%d' % p.pid) != 'done']
+                        if not live: break
+                        for p in live: ctl.grant('p%d' % p.pid)
+                    finished = True
+            elif c == 'watcher':
+                if watcher_alive and w._result_queue.items and not w._plock.held:
+                    r = w._result_queue.items.pop(0)
+                    try:
+                        w._result_cb(r)
+                    except Exception:
+                        watcher_alive = False
+            done.append(c)
+        where = ctl.where('req')
+        rq = {'done': 'done', 'locked': 'locked', 'started': 'started', 'unlock': 'registered', None: 'idle'}.get(where, str(where))
+        obs = {'rq': rq, 'queued': bool(w._result_queue.items), 'in_pool': bool(w._pool), 'held': any(w._resources['cores']),
+               'answered': len(w._res_put.items) > 0, 'watcher': watcher_alive}
+        nans = len(w._res_put.items)
+    finally:
+        ctl.close()
+        wd.mp, wd.os = saved_mp, saved_os
+        if saved_spt is not None: sys.modules['setproctitle'] = saved_spt
+        else: sys.modules.pop('setproctitle', None)
+        os.chdir(cwd0)
+        for k in list(os.environ):
+            if k not in env0: del os.environ[k]
+        for k, v in env0.items():
+            if os.environ.get(k) != v: os.environ[k] = v
+    return obs, done, nans
+
+
+def start_monitor(obs, nans):
+    bad = []
+    if not obs['watcher']:
+        bad.append(('worker:result-watcher-died', 'the result of the request was handled before its process was registered: '
+                    '_result_cb raised, no request is ever answered again'))
+    if nans != 1:
+        bad.append(('worker:request-not-answered-exactly-once', '%d results went back to the master' % nans))
+    if obs['held']:
+        bad.append(('worker:resources-not-returned', 'cores of the request are still busy'))
+    return bad
+
+
+def gen_start(rng):
+    return [rng.choice(['req', 'req', 'proc', 'watcher']) for _ in range(rng.randint(0, 8))]
 
 
 def gen_life(rng):
@@ -668,6 +755,18 @@ def run(ctx):
         for sig, what in life_monitor(obs, answers):
             ctx.fail(sig, what, {'kind': 'life', 'choices': cs})
     common.compare(ctx, 'raptor', lops, limpl, what='real DefaultWorker request life cycle under cooperative multiprocessing (final state per schedule)')
+    # (D') the start of a request: request thread against the result watcher
+    import itertools as _it
+    sops, simpl = [], []
+    starts = [list(c) for n in range(0, 5) for c in _it.product(['req', 'proc', 'watcher'], repeat=n)]
+    starts += [gen_start(rng) for _ in range(ctx.n(40, 2000))]
+    for cs in starts:
+        obs, done, nans = run_start(rp, cs, ctx.scratch)
+        sops.append({'op': 'start', 'choices': done}); simpl.append(obs)
+        ctx.case(sops[-1], nontrivial='proc' in cs and 'watcher' in cs)
+        for sig, what in start_monitor(obs, nans):
+            ctx.fail(sig, what, {'kind': 'start', 'choices': cs})
+    common.compare(ctx, 'raptor', sops, simpl, what='real _request_cb (controlled thread) against the real _result_cb: every schedule of up to 4 steps, then run to the end')
     ctx.rule = ('(A) request streams over workers of 1-8 cores / 0-2 GPUs with demands up to (and sometimes beyond) the worker size, '
                 'completions in random order; (B) all modes x seen x raptor_id exhaustively; (C) 1-4 requests in a row in one process: '
                 'payloads that print, return, raise, set/delete environment variables, replace sys.stdout, with task environments; '
@@ -708,6 +807,9 @@ def replay(ctx, data):
     if i['kind'] == 'life':
         obs, done, answers = run_life(rp, i['choices'], ctx.scratch)
         bad = life_monitor(obs, answers); print(obs[-1], bad); return not bad
+    if i['kind'] == 'start':
+        obs, done, nans = run_start(rp, i['choices'], ctx.scratch)
+        bad = start_monitor(obs, nans); print(obs, bad); return not bad
     if i['kind'] == 'dispatch':
         seq = [tuple(x) for x in i['seq']]
         res = run_dispatch_seq(rp, seq)
